@@ -1,6 +1,9 @@
-(* Proofs.ExprOps — tree_to_operations on clean trees (variables other than the target at the leaves,
-   operators + - * / %): the operation list computes the value of the tree into the returned
-   temporary, never touches a live temporary or a user variable, and fires no tag. *)
+(* Proofs.ExprOps — tree_to_operations on the trees of the arithmetic fragment (variables — also the
+   target — at the leaves, operators + - * / %, the constant -1 of the `E1 - E2` rewrite): the
+   operation list computes the value of the tree into the returned temporary and never touches a
+   live temporary or a user variable (tto_general: no injection, or the target does not occur);
+   when the target occurs once, on the leftmost path, it is read once, before it is written
+   (tto_spine). *)
 From Coq Require Import ZArith String List Bool Lia.
 From JMCV Require Import Base.Int32 Base.Dec MC.Syntax Model.Names Model.VarOp Model.Expr Model.ExprSpec
      Model.ExprFront Model.ExprBack Proofs.ExprLower.
@@ -9,11 +12,17 @@ Open Scope Z_scope.
 
 Definition arith_opc (o : opc) : bool :=
   match o with PAdd | PSub | PMul | PDiv | PMod => true | _ => false end.
+(* operators of emitted triples: also the plain assignment *)
+Definition arith_opc_e (o : opc) : bool :=
+  match o with PPow => false | _ => true end.
 
-Fixpoint ctree (out : score) (t : num) : bool :=
+(* a 32-bit constant *)
+Definition cnum (n : num) : bool := match n with NConst z => in_int32b z | _ => false end.
+
+Fixpoint gtree (t : num) : bool :=
   match t with
-  | NVar s => negb (score_eqb s out)
-  | NExpr c o l r => opc_eqb c o && arith_opc o && ctree out l && ctree out r
+  | NVar _ => true
+  | NExpr c o l r => opc_eqb c o && arith_opc o && gtree l && (gtree r || (is_expr l && cnum r))
   | _ => false
   end.
 
@@ -80,7 +89,7 @@ Lemma new_variable_spec st k st' :
   t_ops st' = t_ops st /\ t_out st' = t_out st /\
   (forall j, avail st' j -> avail st j) /\ (forall j, avail st j -> j = k \/ avail st' j).
 Proof.
-  intros [Hd Hb]. unfold new_variable. destruct (t_free st) as [|i fr] eqn:E.
+  intros [Hd Hb]. unfold new_variable, fresh_variable. destruct (t_free st) as [|i fr] eqn:E.
   - intros [= <- <-]. cbn [t_max t_free t_ops t_out]. unfold avail, Inv. rewrite E. cbn [t_max t_free].
     repeat apply conj.
     + right. lia.
@@ -136,23 +145,25 @@ Definition res_post (first : bool) (node res : num) (st st' : tstate) : Prop :=
   | _ => res = node /\ st' = st
   end.
 
-Definition sem_post (node res : num) (st : tstate) (new : list oper) : Prop :=
+(* the temporaries an evaluation from st to st' may write: available in st, created up to st' *)
+Definition sem_post (node res : num) (st st' : tstate) (new : list oper) : Prop :=
   forall rho f, rho_ok rho (tvars node) ->
-    (forall s, (forall k, avail st k -> s <> rho k) -> interp_ops (map (ren_op rho) new) f s = f s) /\
+    (forall s, (forall k, avail st k -> (k <= t_max st')%nat -> s <> rho k) ->
+               interp_ops (map (ren_op rho) new) f s = f s) /\
     numval (interp_ops (map (ren_op rho) new) f) (ren_num rho res) = teval f node.
 
-(* every emitted triple has a variable/temporary on the left and a variable/temporary on the right *)
-Definition is_vt (n : num) : bool := match n with NVar _ | NTemp _ => true | _ => false end.
+(* every emitted triple has a temporary on the left and a variable / temporary / constant on the right *)
+Definition is_vt (n : num) : bool := match n with NVar _ | NTemp _ => true | NConst z => in_int32b z | _ => false end.
 Definition is_temp (n : num) : bool := match n with NTemp _ => true | _ => false end.
 Definition op_shape (o : oper) : bool :=
-  is_temp (fst (fst o)) && is_vt (snd o) && negb (opc_eqb (snd (fst o)) PPow).
+  is_temp (fst (fst o)) && is_vt (snd o) && arith_opc_e (snd (fst o)).
 
-Definition tto_post (out : score) (node : num) (first : bool) (st : tstate) : Prop :=
+Definition tto_post (cj : bool) (out : score) (node : num) (first : bool) (st : tstate) : Prop :=
   exists res st' new,
-    tto out true node first st = (Ok (res, st'), []) /\
+    tto out cj node first st = (Ok (res, st'), []) /\
     t_ops st' = rev new ++ t_ops st /\ Inv st' /\ (t_max st <= t_max st')%nat /\
     (forall k, In k (t_free st') -> avail st k) /\
-    res_post first node res st st' /\ sem_post node res st new /\ forallb op_shape new = true.
+    res_post first node res st st' /\ sem_post node res st st' new /\ forallb op_shape new = true.
 
 Lemma avail_mono st st' : (t_max st <= t_max st')%nat -> (forall k, In k (t_free st') -> avail st k) ->
   forall k, avail st' k -> avail st k.
@@ -166,16 +177,18 @@ Proof. apply rho_ok_sub. intros s Hs. cbn [tvars]. apply in_or_app. now left. Qe
 Lemma rho_ok_r rho c o l r : rho_ok rho (tvars (NExpr c o l r)) -> rho_ok rho (tvars r).
 Proof. apply rho_ok_sub. intros s Hs. cbn [tvars]. apply in_or_app. now right. Qed.
 
-(* the result of a clean subtree *)
-Lemma res_cases out r resr st1 st2 :
-  ctree out r = true -> res_post false r resr st1 st2 ->
+(* the result of the right operand *)
+Lemma res_cases r resr st1 st2 :
+  (gtree r || cnum r) = true -> res_post false r resr st1 st2 ->
   (exists s', r = NVar s' /\ resr = NVar s' /\ st2 = st1) \/
-  (exists j, resr = NTemp j /\ avail st1 j /\ (j <= t_max st2)%nat /\ ~ In j (t_free st2) /\
+  (exists z, r = NConst z /\ resr = NConst z /\ st2 = st1) \/
+  (is_expr r = true /\ exists j, resr = NTemp j /\ avail st1 j /\ (j <= t_max st2)%nat /\ ~ In j (t_free st2) /\
              t_out st2 = t_out st1).
 Proof.
-  destruct r; cbn [ctree res_post]; try discriminate; intros _ H.
+  destruct r; cbn [gtree cnum res_post orb]; try discriminate; intros _ H.
+  - right. left. destruct H as [-> ->]. eauto.
   - left. destruct H as [-> ->]. eauto.
-  - right. exact H.
+  - right. right. split; [reflexivity|exact H].
 Qed.
 
 Lemma interp_one_other f o s : o_var o <> s -> interp_one f o s = f s.
@@ -185,9 +198,6 @@ Proof. unfold interp_one. now rewrite score_eqb_refl. Qed.
 
 Lemma map_ren_app rho (a b : list oper) : map (ren_op rho) (a ++ b) = map (ren_op rho) a ++ map (ren_op rho) b.
 Proof. apply map_app. Qed.
-
-Lemma tto_leaf out s first st : tto out true (NVar s) first st = (Ok (NVar s, st), []).
-Proof. reflexivity. Qed.
 
 Ltac post_split := refine (conj _ (conj _ (conj _ (conj _ (conj _ (conj _ (conj _ _))))))).
 
@@ -204,57 +214,91 @@ Lemma tto_expr out can_inject content oper l r first st :
    | _ =>
        match lv, rv with
        | NConst a, NConst b =>
-           tell_if (negb (opc_eqb content oper)) T_sub_rewrite_fold ;;;
-           v <- py_eval2 a content b ;;
+           v <- fold_node content a b ;;
            if first then
              let '(k, st3) := new_variable st2 in
              ret (NConst v, push (NTemp k, PEmpty, NConst v) (set_out k st3))
            else ret (NConst v, st2)
        | _, _ =>
-           let '(k, st3) := new_variable st2 in
+           let copy := negb can_inject || differs_from_output out lv in
+           let '(k, st3) := if copy then new_variable st2 else fresh_variable st2 in
            let st4 := if first then set_out k st3 else st3 in
            let st5 := free_if_temp rv st4 in
-           let copy := negb can_inject || differs_from_output out lv in
            let st6 := if copy then push (NTemp k, PEmpty, lv) st5 else st5 in
-           tell_if (negb copy && match t_free st2 with [] => false | _ => true end)
-                   T_inject_reused_temp ;;;
            if opc_eqb content PPow then pow_ops (NTemp k) rv st6
            else ret (NTemp k, push (NTemp k, oper, rv) st6)
        end
    end).
 Proof. reflexivity. Qed.
 
-Lemma tto_clean out node : ctree out node = true -> forall ft st, Inv st -> tto_post out node ft st.
+Lemma tto_nonexpr out cj n first st : is_expr n = false -> tto out cj n first st = (Ok (n, st), []).
+Proof. destruct n; cbn; try discriminate; reflexivity. Qed.
+
+Lemma arith_not_pow o : arith_opc o = true -> opc_eqb o PPow = false.
+Proof. destruct o; cbn; congruence. Qed.
+
+(* the subtree is evaluated with a copy of its leftmost leaf: no injection, or the target does not occur *)
+Definition copying (cj : bool) (out : score) (t : num) : Prop := cj = false \/ count_out out t = O.
+
+Lemma copying_l cj out c o l r : copying cj out (NExpr c o l r) -> copying cj out l.
+Proof. intros [H|H]; [now left|right]. cbn [count_out] in H. lia. Qed.
+Lemma copying_r cj out c o l r : copying cj out (NExpr c o l r) -> copying cj out r.
+Proof. intros [H|H]; [now left|right]. cbn [count_out] in H. lia. Qed.
+Lemma copying_leaf cj out s : copying cj out (NVar s) -> negb cj || differs_from_output out (NVar s) = true.
 Proof.
-  induction node as [z|s|i|c o l IHl r IHr]; cbn [ctree]; try discriminate.
+  intros [->|H]; [reflexivity|]. cbn [count_out differs_from_output] in *.
+  destruct (score_eqb s out); [discriminate|]. now rewrite orb_true_r.
+Qed.
+
+Lemma tto_general out cj node :
+  gtree node = true -> copying cj out node -> forall ft st, Inv st -> tto_post cj out node ft st.
+Proof.
+  induction node as [z|s|i|c o l IHl r IHr]; cbn [gtree]; try discriminate.
   - (* leaf *)
-    intros Hs ft st HI. exists (NVar s), st, []. cbn [rev app].
+    intros _ _ ft st HI. exists (NVar s), st, []. cbn [rev app].
     post_split; auto.
     + intros k Hk. now left.
     + split; reflexivity.
     + intros rho f Hr. split; [intros; reflexivity|reflexivity].
   - (* operation *)
-    intros Hc ft st HI.
+    intros Hc Hcp ft st HI.
     apply andb_true_iff in Hc. destruct Hc as [Hc Hcr]. apply andb_true_iff in Hc. destruct Hc as [Hc Hcl].
     apply andb_true_iff in Hc. destruct Hc as [Hco Har].
     assert (c = o) as -> by (destruct c, o; cbn in Hco; congruence).
-    assert (Hpow : opc_eqb o PPow = false) by (destruct o; cbn in Har; congruence || reflexivity).
-    destruct (IHl Hcl false st HI) as (resl & st1 & newl & El & Ol & I1 & M1 & F1 & Rl & Sl & Shl).
-    destruct (IHr Hcr false st1 I1) as (resr & st2 & newr & Er & Or & I2 & M2 & F2 & Rr & Sr & Shr).
+    pose proof (arith_not_pow o Har) as Hpow.
+    assert (Hare : arith_opc_e o = true) by (destruct o; cbn in Har |- *; congruence).
+    destruct (IHl Hcl (copying_l _ _ _ _ _ _ Hcp) false st HI) as (resl & st1 & newl & El & Ol & I1 & M1 & F1 & Rl & Sl & Shl).
+    assert (Hr' : exists resr st2 newr,
+               tto out cj r false st1 = (Ok (resr, st2), []) /\
+               t_ops st2 = rev newr ++ t_ops st1 /\ Inv st2 /\ (t_max st1 <= t_max st2)%nat /\
+               (forall k, In k (t_free st2) -> avail st1 k) /\
+               res_post false r resr st1 st2 /\ sem_post r resr st1 st2 newr /\ forallb op_shape newr = true).
+    { destruct (gtree r) eqn:Gr.
+      - exact (IHr eq_refl (copying_r _ _ _ _ _ _ Hcp) false st1 I1).
+      - cbn [orb] in Hcr. apply andb_true_iff in Hcr. destruct Hcr as [_ Hk].
+        destruct r as [z| | |]; try discriminate.
+        exists (NConst z), st1, []. cbn [rev app]. post_split; auto.
+        + intros k Hk'. now left.
+        + split; reflexivity.
+        + intros rho f Hr. split; [intros; reflexivity|reflexivity]. }
+    destruct Hr' as (resr & st2 & newr & Er & Or & I2 & M2 & F2 & Rr & Sr & Shr).
+    assert (Hcr' : (gtree r || cnum r) = true).
+    { destruct (gtree r); [reflexivity|]. cbn [orb] in Hcr |- *. now apply andb_true_iff in Hcr. }
     pose proof (avail_mono st st1 M1 F1) as A1.
     pose proof (avail_mono st1 st2 M2 F2) as A2.
-    pose proof (tto_expr out true o o l r ft st) as Ht. rewrite El, bind_ok_nil, Er, bind_ok_nil in Ht.
+    pose proof (tto_expr out cj o o l r ft st) as Ht. rewrite El, bind_ok_nil, Er, bind_ok_nil in Ht.
     cbv beta iota zeta in Ht. unfold tto_post.
-    destruct l as [zl|sl|il|cl ol ll rl]; cbn [ctree] in Hcl; try discriminate.
+    destruct l as [zl|sl|il|cl ol ll rl]; cbn [gtree] in Hcl; try discriminate.
     + (* left operand is a variable: a new temporary is initialised with it *)
-      destruct Rl as [-> ->]. cbn [tto] in El. clear IHl.
+      destruct Rl as [-> ->]. clear IHl.
+      assert (Gr : gtree r = true).
+      { destruct (gtree r); [reflexivity|]. cbn in Hcr. discriminate. }
       destruct (new_variable st2) as [k st3] eqn:En.
       destruct (new_variable_spec st2 k st3 I2 En) as (Ak & Kmax & I3 & Kfree & M3 & F3 & O3 & Out3 & A3 & A3').
-      assert (Hsl : differs_from_output out (NVar sl) = true) by exact Hcl.
-      cbv beta iota zeta in Ht.
-      rewrite Hsl in Ht. cbn [negb orb andb] in Ht. rewrite Hpow in Ht.
-      unfold tell_if in Ht. cbv beta iota in Ht. unfold ret at 1 in Ht. rewrite bind_ok_nil in Ht.
-      destruct (res_cases out r resr st st2 Hcr Rr) as [(s' & -> & -> & ->)|(j & -> & Aj & Jmax & Jfree & Outj)].
+      pose proof (copying_leaf cj out sl (copying_l _ _ _ _ _ _ Hcp)) as Hsl.
+      cbv beta iota zeta in Ht. rewrite Hsl in Ht. cbv beta iota zeta in Ht. rewrite Hpow in Ht.
+      destruct (res_cases r resr st st2 Hcr' Rr) as [(s' & -> & -> & ->)|[(z & -> & _)|(_ & j & -> & Aj & Jmax & Jfree & Outj)]];
+        [|discriminate Gr|].
       * (* right operand is a variable *)
         cbn [free_if_temp] in Ht.
         exists (NTemp k), (push (NTemp k, o, NVar s') (push (NTemp k, PEmpty, NVar sl) (if ft then set_out k st3 else st3))),
@@ -276,12 +320,13 @@ Proof.
            assert (Ns : sl <> rho k) by (apply Hdis; [cbn [tvars]; apply in_or_app; left; now left|exact K1]).
            assert (Ns' : s' <> rho k) by (apply Hdis; [cbn [tvars]; apply in_or_app; right; now left|exact K1]).
            split.
-           ++ intros s Hs. assert (s <> rho k) by (apply Hs; exact Ak).
+           ++ intros s Hs. assert (s <> rho k).
+              { apply Hs; [exact Ak|]. destruct ft; cbn [push set_out t_max]; exact Kmax. }
               rewrite !interp_one_other by (cbn; congruence). reflexivity.
            ++ cbn [numval]. rewrite interp_one_same. cbn [o_var o_op o_num fst snd numval].
               rewrite (interp_one_other _ _ s') by (cbn; congruence).
               rewrite interp_one_same. cbn [o_var o_op o_num fst snd numval op_sem teval]. reflexivity.
-        -- cbn. rewrite Hpow. reflexivity.
+        -- cbn. rewrite Hare. reflexivity.
       * (* right operand is an operation: its temporary j is released *)
         cbn [free_if_temp] in Ht.
         assert (Jge : (1 <= j)%nat) by (exact (avail_ge1 _ _ HI Aj)).
@@ -320,15 +365,17 @@ Proof.
            assert (Ns : sl <> rho k) by (apply Hdis; [cbn [tvars]; apply in_or_app; left; now left|exact K1]).
            assert (Nj : rho k <> rho j) by (intros E; apply Hkj; apply Hinj; auto).
            split.
-           ++ intros s Hs. assert (s <> rho k) by (apply Hs; now apply A2).
-              rewrite !interp_one_other by (cbn; congruence). apply Fr. exact Hs.
+           ++ intros s Hs. assert (s <> rho k).
+              { apply Hs; [now apply A2|]. cbn [push free_var t_max]. rewrite M4. exact Kmax. }
+              rewrite !interp_one_other by (cbn; congruence). apply Fr.
+              intros k' Ak' Bk'. apply Hs; [exact Ak'|]. cbn [push free_var t_max]. rewrite M4. lia.
            ++ cbn [numval]. rewrite interp_one_same. cbn [o_var o_op o_num fst snd numval].
               rewrite (interp_one_other _ _ (rho j)) by (cbn; congruence).
               rewrite interp_one_same. cbn [o_var o_op o_num fst snd numval op_sem teval].
               cbn [ren_num numval] in Vr. rewrite Vr. f_equal.
-              apply Fr. intros k' Hk'. apply Hdis; [cbn [tvars]; apply in_or_app; left; now left|].
+              apply Fr. intros k' Hk' _. apply Hdis; [cbn [tvars]; apply in_or_app; left; now left|].
               exact (avail_ge1 _ _ HI Hk').
-        -- rewrite forallb_app, Shr. cbn. rewrite Hpow. reflexivity.
+        -- rewrite forallb_app, Shr. cbn. rewrite Hare. reflexivity.
     + (* left operand is an operation: its temporary receives the result *)
       cbn [res_post] in Rl. destruct Rl as (i & -> & Ai & Imax & Ifree & Outi).
       assert (Ige : (1 <= i)%nat) by (exact (avail_ge1 _ _ HI Ai)).
@@ -340,7 +387,7 @@ Proof.
       assert (M3 : t_max st3 = t_max st2) by (subst st3; destruct ft; reflexivity).
       assert (O3 : t_ops st3 = t_ops st2) by (subst st3; destruct ft; reflexivity).
       assert (Out3 : t_out st3 = if ft then Some i else t_out st2) by (subst st3; destruct ft; reflexivity).
-      destruct (res_cases out r resr st1 st2 Hcr Rr) as [(s' & -> & -> & ->)|(j & -> & Aj & Jmax & Jfree & Outj)].
+      destruct (res_cases r resr st1 st2 Hcr' Rr) as [(s' & -> & -> & ->)|[(z & -> & -> & ->)|(_ & j & -> & Aj & Jmax & Jfree & Outj)]].
       * cbn [free_if_temp] in Ht.
         exists (NTemp i), (push (NTemp i, o, NVar s') st3), (newl ++ [(NTemp i, o, NVar s')]).
         clear Er.
@@ -360,13 +407,42 @@ Proof.
            cbn [map]. unfold ren_op. cbn [ren_var ren_num fst snd]. unfold interp_ops. cbn [fold_left].
            assert (Ns' : s' <> rho i) by (apply Hdis; [cbn [tvars]; apply in_or_app; right; now left|exact Ige]).
            split.
-           ++ intros s Hs. assert (s <> rho i) by (apply Hs; exact Ai).
-              rewrite interp_one_other by (cbn; congruence). apply Fl. exact Hs.
+           ++ intros s Hs. assert (s <> rho i).
+              { apply Hs; [exact Ai|]. cbn [push t_max]. rewrite M3. exact Imax. }
+              rewrite interp_one_other by (cbn; congruence). apply Fl.
+              intros k' Ak' Bk'. apply Hs; [exact Ak'|]. cbn [push t_max]. rewrite M3. exact Bk'.
            ++ cbn [numval]. rewrite interp_one_same. cbn [o_var o_op o_num fst snd numval op_sem teval].
               cbn [ren_num numval] in Vl. rewrite Vl. f_equal.
-              apply Fl. intros k' Hk'. apply Hdis; [cbn [tvars]; apply in_or_app; right; now left|].
+              apply Fl. intros k' Hk' _. apply Hdis; [cbn [tvars]; apply in_or_app; right; now left|].
               exact (avail_ge1 _ _ HI Hk').
-        -- rewrite forallb_app, Shl. cbn. rewrite Hpow. reflexivity.
+        -- rewrite forallb_app, Shl. cbn. rewrite Hare. reflexivity.
+      * (* right operand is a constant *)
+        cbn [free_if_temp] in Ht.
+        exists (NTemp i), (push (NTemp i, o, NConst z) st3), (newl ++ [(NTemp i, o, NConst z)]).
+        clear Er.
+        post_split.
+        -- exact Ht.
+        -- cbn [push t_ops]. rewrite O3, Ol, rev_app_distr. reflexivity.
+        -- exact I3.
+        -- cbn [push t_max]. rewrite M3. exact M1.
+        -- intros x Hx. cbn [push t_free] in Hx. rewrite F3 in Hx. now apply F1.
+        -- cbn [res_post]. exists i. repeat apply conj; auto.
+           ++ cbn [push t_max]. rewrite M3. exact Imax.
+           ++ cbn [push t_free]. rewrite F3. exact Ifree.
+           ++ cbn [push t_out]. rewrite Out3. destruct ft; [reflexivity|exact Outi].
+        -- intros rho f Hr. pose proof Hr as [Hinj Hdis].
+           destruct (Sl rho f (rho_ok_l _ _ _ _ _ Hr)) as [Fl Vl].
+           rewrite map_ren_app, interp_ops_app. set (f1 := interp_ops (map (ren_op rho) newl) f) in *.
+           cbn [map]. unfold ren_op. cbn [ren_var ren_num fst snd]. unfold interp_ops. cbn [fold_left].
+           split.
+           ++ intros s Hs. assert (s <> rho i).
+              { apply Hs; [exact Ai|]. cbn [push t_max]. rewrite M3. exact Imax. }
+              rewrite interp_one_other by (cbn; congruence). apply Fl.
+              intros k' Ak' Bk'. apply Hs; [exact Ak'|]. cbn [push t_max]. rewrite M3. exact Bk'.
+           ++ cbn [numval]. rewrite interp_one_same. cbn [o_var o_op o_num fst snd numval op_sem teval].
+              cbn [ren_num numval] in Vl. rewrite Vl. reflexivity.
+        -- assert (Hz : in_int32b z = true) by exact Hcr'.
+           rewrite forallb_app, Shl. unfold op_shape. cbn [forallb is_temp is_vt fst snd andb]. now rewrite Hz, Hare.
       * cbn [free_if_temp] in Ht.
         assert (Jge : (1 <= j)%nat) by (exact (avail_ge1 _ _ I1 Aj)).
         assert (Hij : i <> j) by (intros ->; contradiction).
@@ -394,15 +470,321 @@ Proof.
            cbn [map]. unfold ren_op. cbn [ren_var ren_num fst snd]. unfold interp_ops. cbn [fold_left].
            assert (Nj : rho i <> rho j) by (intros E; apply Hij; apply Hinj; auto).
            split.
-           ++ intros s Hs. assert (s <> rho i) by (apply Hs; exact Ai).
+           ++ intros s Hs. assert (s <> rho i).
+              { apply Hs; [exact Ai|]. cbn [push free_var t_max]. rewrite M3. lia. }
               rewrite interp_one_other by (cbn; congruence).
-              unfold f2. rewrite Fr by (intros k' Hk'; apply Hs; now apply A1). apply Fl. exact Hs.
+              unfold f2. rewrite Fr.
+              ** apply Fl. intros k' Ak' Bk'. apply Hs; [exact Ak'|]. cbn [push free_var t_max]. rewrite M3. lia.
+              ** intros k' Ak' Bk'. apply Hs; [now apply A1|]. cbn [push free_var t_max]. rewrite M3. exact Bk'.
            ++ cbn [numval]. rewrite interp_one_same. cbn [o_var o_op o_num fst snd numval op_sem teval].
               cbn [ren_num numval] in Vl, Vr. rewrite Vr.
               assert (E2 : f2 (rho i) = f1 (rho i)).
-              { apply Fr. intros k' Hk' E. apply Hinj in E; [subst k'; contradiction|exact Ige|exact (avail_ge1 _ _ I1 Hk')]. }
+              { apply Fr. intros k' Hk' _ E. apply Hinj in E; [subst k'; contradiction|exact Ige|exact (avail_ge1 _ _ I1 Hk')]. }
               rewrite E2, Vl. f_equal.
-              apply teval_ext. intros s Hs. apply Fl. intros k' Hk'.
+              apply teval_ext. intros s Hs. apply Fl. intros k' Hk' _.
               apply Hdis; [cbn [tvars]; apply in_or_app; now right|exact (avail_ge1 _ _ HI Hk')].
-        -- rewrite !forallb_app, Shl, Shr. cbn. rewrite Hpow. reflexivity.
+        -- rewrite !forallb_app, Shl, Shr. cbn. rewrite Hare. reflexivity.
+Qed.
+
+(* ------------------------------------------------------------------ the target on the leftmost path *)
+(* the target is the leftmost leaf of the tree and occurs nowhere else: what search_for_output_in_tree
+   arranges when it allows the injection of a target that occurs once *)
+Fixpoint spine (out : score) (t : num) : bool :=
+  match t with
+  | NExpr c o l r =>
+      opc_eqb c o && arith_opc o &&
+      match l with
+      | NVar s => score_eqb s out && gtree r
+      | _ => spine out l && (gtree r || cnum r)
+      end && Nat.eqb (count_out out r) 0
+  | _ => false
+  end.
+
+Definition rho_spine (rho : nat -> score) (out : score) (k : nat) (vars : list score) : Prop :=
+  (forall a b, (1 <= a)%nat -> (1 <= b)%nat -> rho a = rho b -> a = b) /\
+  (forall s j, In s vars -> s <> out -> (1 <= j)%nat -> s <> rho j) /\
+  rho k = out.
+
+Definition sem_spine (out : score) (node : num) (k : nat) (st st' : tstate) (new : list oper) : Prop :=
+  forall rho f, rho_spine rho out k (tvars node) ->
+    (forall s, s <> out -> (forall j, avail st j -> (j <= t_max st')%nat -> s <> rho j) ->
+               interp_ops (map (ren_op rho) new) f s = f s) /\
+    interp_ops (map (ren_op rho) new) f out = teval f node.
+
+Definition spine_post (out : score) (node : num) (first : bool) (st : tstate) : Prop :=
+  exists k st' new,
+    tto out true node first st = (Ok (NTemp k, st'), []) /\
+    t_ops st' = rev new ++ t_ops st /\ Inv st' /\ (t_max st <= t_max st')%nat /\
+    (forall j, In j (t_free st') -> avail st j) /\
+    (avail st k /\ (k <= t_max st')%nat /\ ~ In k (t_free st') /\
+     t_out st' = (if first then Some k else t_out st)) /\
+    sem_spine out node k st st' new /\ forallb op_shape new = true.
+
+Lemma interp_one_same' f v o n : interp_one f (v, o, n) v = op_sem o (f v) (numval f n).
+Proof. unfold interp_one. cbn [o_var o_op o_num fst snd]. now rewrite score_eqb_refl. Qed.
+
+Lemma interp_snoc1 l x g : interp_ops (l ++ [x]) g = interp_one (interp_ops l g) x.
+Proof. rewrite interp_ops_app. reflexivity. Qed.
+
+Lemma rev_app_self_nil {A} (l X : list A) : X = rev l ++ X -> l = [].
+Proof.
+  intros H. apply (f_equal (@length A)) in H. rewrite app_length, rev_length in H.
+  destruct l; [reflexivity|cbn in H; lia].
+Qed.
+
+Lemma count0_notin out t : count_out out t = O -> ~ In out (tvars t).
+Proof.
+  induction t as [z|s|i|c o l IHl r IHr]; cbn [count_out tvars]; intros H Hin; try (destruct Hin; fail).
+  - destruct Hin as [<-|[]]. now rewrite score_eqb_refl in H.
+  - apply in_app_or in Hin. destruct Hin; [apply IHl|apply IHr]; auto; lia.
+Qed.
+
+Lemma fresh_variable_spec st k st' :
+  Inv st -> fresh_variable st = (k, st') ->
+  k = S (t_max st) /\ Inv st' /\ ~ In k (t_free st') /\ t_max st' = S (t_max st) /\
+  t_free st' = t_free st /\ t_ops st' = t_ops st /\ t_out st' = t_out st.
+Proof.
+  intros [Hd Hb]. unfold fresh_variable. intros [= <- <-]. cbn [t_max t_free t_ops t_out].
+  repeat apply conj; try reflexivity.
+  - exact Hd.
+  - cbn [t_free t_max]. intros j Hj. apply Hb in Hj. lia.
+  - intros H. apply Hb in H. lia.
+Qed.
+
+(* the right operand of a node on the spine: evaluated by tto_general (the target does not occur) *)
+Lemma right_operand out r st1 :
+  (gtree r || cnum r) = true -> count_out out r = O -> Inv st1 ->
+  exists resr st2 newr,
+    tto out true r false st1 = (Ok (resr, st2), []) /\
+    t_ops st2 = rev newr ++ t_ops st1 /\ Inv st2 /\ (t_max st1 <= t_max st2)%nat /\
+    (forall k, In k (t_free st2) -> avail st1 k) /\
+    res_post false r resr st1 st2 /\ sem_post r resr st1 st2 newr /\ forallb op_shape newr = true.
+Proof.
+  intros Hg Hc I1. destruct (gtree r) eqn:Gr.
+  - exact (tto_general out true r Gr (or_intror Hc) false st1 I1).
+  - cbn [orb] in Hg. destruct r as [z| | |]; try discriminate.
+    exists (NConst z), st1, []. cbn [rev app]. post_split; auto.
+    + intros k Hk'. now left.
+    + split; reflexivity.
+    + intros rho f Hr. split; [intros; reflexivity|reflexivity].
+Qed.
+
+Lemma rho_spine_ok rho out k vars vars' :
+  rho_spine rho out k vars -> (forall s, In s vars' -> In s vars) -> ~ In out vars' -> rho_ok rho vars'.
+Proof.
+  intros (Hinj & Hdis & _) Hsub Hno. split; [exact Hinj|].
+  intros s j Hs Hj. apply Hdis; [now apply Hsub| |exact Hj]. intros ->. contradiction.
+Qed.
+
+Lemma tto_spine out node :
+  spine out node = true -> forall ft st, Inv st -> spine_post out node ft st.
+Proof.
+  induction node as [z|s|i|c o l IHl r IHr]; cbn [spine]; try discriminate.
+  intros Hc ft st HI.
+  apply andb_true_iff in Hc. destruct Hc as [Hc Hcnt]. apply andb_true_iff in Hc. destruct Hc as [Hc Hl].
+  apply andb_true_iff in Hc. destruct Hc as [Hco Har].
+  apply Nat.eqb_eq in Hcnt.
+  assert (c = o) as -> by (destruct c, o; cbn in Hco; congruence).
+  pose proof (arith_not_pow o Har) as Hpow.
+  assert (Hare : arith_opc_e o = true) by (destruct o; cbn in Har |- *; congruence).
+  pose proof (count0_notin out r Hcnt) as Hnor.
+  pose proof (tto_expr out true o o l r ft st) as Ht.
+  unfold spine_post.
+  destruct l as [zl|sl|il|cl ol ll rl]; try discriminate.
+  - (* the target itself: the temporary that takes it over is new, nothing is copied *)
+    clear IHl. apply andb_true_iff in Hl. destruct Hl as [Hso Gr].
+    assert (sl = out) as -> by (destruct (score_eqb_spec sl out); congruence). clear Hso.
+    destruct (right_operand out r st) as (resr & st2 & newr & Er & Or & I2 & M2 & F2 & Rr & Sr & Shr);
+      [now rewrite Gr|exact Hcnt|exact HI|].
+    pose proof (avail_mono st st2 M2 F2) as A2.
+    rewrite (tto_nonexpr out true (NVar out) false st eq_refl), bind_ok_nil, Er, bind_ok_nil in Ht.
+    cbv beta iota zeta in Ht. cbn [differs_from_output negb orb] in Ht. rewrite score_eqb_refl in Ht.
+    cbn [negb] in Ht. cbv beta iota zeta in Ht.
+    destruct (fresh_variable st2) as [k st3] eqn:En.
+    destruct (fresh_variable_spec st2 k st3 I2 En) as (Ek & I3 & Kfree & M3 & F3 & O3 & Out3).
+    rewrite Hpow in Ht.
+    assert (K1 : (1 <= k)%nat) by lia.
+    assert (Hcr' : (gtree r || cnum r) = true) by now rewrite Gr.
+    destruct (res_cases r resr st st2 Hcr' Rr) as [(s' & -> & -> & ->)|[(z & -> & _)|(_ & j & -> & Aj & Jmax & Jfree & Outj)]];
+      [|discriminate Gr|].
+    + (* right operand is a variable *)
+      cbn [free_if_temp] in Ht.
+      exists k, (push (NTemp k, o, NVar s') (if ft then set_out k st3 else st3)), [(NTemp k, o, NVar s')].
+      post_split.
+      * exact Ht.
+      * destruct ft; cbn [push set_out t_ops]; rewrite O3; reflexivity.
+      * destruct ft; exact I3.
+      * destruct ft; cbn [push set_out t_max]; lia.
+      * intros x Hx. left. rewrite <- F3. destruct ft; exact Hx.
+      * repeat apply conj.
+        -- right. lia.
+        -- destruct ft; cbn [push set_out t_max]; lia.
+        -- destruct ft; exact Kfree.
+        -- destruct ft; cbn [push set_out t_out]; [reflexivity|exact Out3].
+      * intros rho f (Hinj & Hdis & Hk). cbn [map]. unfold ren_op. cbn [ren_var ren_num fst snd].
+        unfold interp_ops. cbn [fold_left]. rewrite Hk.
+        split.
+        -- intros s Hs' _. apply interp_one_other. cbn. congruence.
+        -- assert (s' <> out).
+           { intros ->. apply Hnor. now left. }
+           rewrite interp_one_same'. cbn [numval teval]. reflexivity.
+      * cbn. rewrite Hare. reflexivity.
+    + (* right operand is an operation: its temporary j is released *)
+      cbn [free_if_temp] in Ht.
+      assert (Jge : (1 <= j)%nat) by (exact (avail_ge1 _ _ HI Aj)).
+      assert (Hkj : k <> j) by lia.
+      set (st4 := if ft then set_out k st3 else st3) in *.
+      assert (I4 : Inv st4) by (subst st4; destruct ft; exact I3).
+      assert (F4 : t_free st4 = t_free st3) by (subst st4; destruct ft; reflexivity).
+      assert (M4 : t_max st4 = t_max st3) by (subst st4; destruct ft; reflexivity).
+      assert (O4 : t_ops st4 = t_ops st3) by (subst st4; destruct ft; reflexivity).
+      destruct (free_var_spec st4 j I4) as [I5 F5].
+      { rewrite F4, F3. exact Jfree. }
+      { rewrite M4. lia. }
+      exists k, (push (NTemp k, o, NTemp j) (free_var j st4)), (newr ++ [(NTemp k, o, NTemp j)]).
+      post_split.
+      * exact Ht.
+      * cbn [push free_var t_ops]. rewrite O4, O3, Or. rewrite rev_app_distr. reflexivity.
+      * exact I5.
+      * cbn [push free_var t_max]. rewrite M4. lia.
+      * intros x Hx. cbn [push t_free] in Hx. apply F5 in Hx. destruct Hx as [->|Hx]; [exact Aj|].
+        rewrite F4, F3 in Hx. now apply F2.
+      * repeat apply conj.
+        -- right. lia.
+        -- cbn [push free_var t_max]. rewrite M4. lia.
+        -- cbn [push t_free]. intros Hx. apply F5 in Hx. destruct Hx as [Hx|Hx]; [contradiction|].
+           rewrite F4 in Hx. contradiction.
+        -- cbn [push free_var t_out]. subst st4. destruct ft; cbn [set_out t_out]; [reflexivity|].
+           rewrite Out3. exact Outj.
+      * intros rho f Hrs. pose proof Hrs as (Hinj & Hdis & Hk).
+        assert (Hro : rho_ok rho (tvars r)).
+        { apply (rho_spine_ok rho out k _ _ Hrs); [|exact Hnor]. intros s0 Hs0. cbn [tvars]. now right. }
+        destruct (Sr rho f Hro) as [Fr Vr].
+        rewrite map_ren_app, interp_ops_app. set (f2 := interp_ops (map (ren_op rho) newr) f) in *.
+        cbn [map]. unfold ren_op. cbn [ren_var ren_num fst snd]. unfold interp_ops. cbn [fold_left]. rewrite Hk.
+        assert (Nj : out <> rho j) by (rewrite <- Hk; intros E; apply Hkj; apply Hinj; auto).
+        assert (Eout : f2 out = f out).
+        { apply Fr. intros j' Aj' Bj' E. rewrite <- Hk in E. apply Hinj in E; [lia|exact K1|exact (avail_ge1 _ _ HI Aj')]. }
+        split.
+        -- intros s Hs Hs'. rewrite interp_one_other by (cbn; congruence). apply Fr.
+           intros j' Aj' Bj'. apply Hs'; [exact Aj'|]. cbn [push free_var t_max]. rewrite M4. lia.
+        -- rewrite interp_one_same'. cbn [numval teval].
+           cbn [ren_num numval] in Vr. rewrite Vr, Eout. reflexivity.
+      * rewrite forallb_app, Shr. cbn. rewrite Hare. reflexivity.
+  - (* further up the leftmost path: the temporary of the left operand receives the result *)
+    apply andb_true_iff in Hl. destruct Hl as [Hsp Hcr'].
+    destruct (IHl Hsp false st HI) as (k & st1 & newl & El & Ol & I1 & M1 & F1 & (Ak & Kmax & Kfree & Outk) & Sl & Shl).
+    destruct (right_operand out r st1 Hcr' Hcnt I1) as (resr & st2 & newr & Er & Or & I2 & M2 & F2 & Rr & Sr & Shr).
+    pose proof (avail_mono st st1 M1 F1) as A1.
+    pose proof (avail_mono st1 st2 M2 F2) as A2.
+    rewrite El, bind_ok_nil, Er, bind_ok_nil in Ht. cbv beta iota zeta in Ht. rewrite Hpow in Ht.
+    assert (Kge : (1 <= k)%nat) by (exact (avail_ge1 _ _ HI Ak)).
+    assert (NAk : ~ avail st1 k) by (intros [H|H]; [contradiction|lia]).
+    set (st3 := if ft then set_out k st2 else st2) in *.
+    assert (I3 : Inv st3) by (subst st3; destruct ft; exact I2).
+    assert (F3 : t_free st3 = t_free st2) by (subst st3; destruct ft; reflexivity).
+    assert (M3 : t_max st3 = t_max st2) by (subst st3; destruct ft; reflexivity).
+    assert (O3 : t_ops st3 = t_ops st2) by (subst st3; destruct ft; reflexivity).
+    assert (Out3 : t_out st3 = if ft then Some k else t_out st2) by (subst st3; destruct ft; reflexivity).
+    (* meaning of the two parts, for any renaming that sends k to the target *)
+    assert (Hsem : forall rho f, rho_spine rho out k (tvars (NExpr o o (NExpr cl ol ll rl) r)) ->
+              let f1 := interp_ops (map (ren_op rho) newl) f in
+              let f2 := interp_ops (map (ren_op rho) newr) f1 in
+              (forall s, s <> out -> (forall j, avail st j -> (j <= t_max st2)%nat -> s <> rho j) -> f2 s = f s) /\
+              f2 out = teval f (NExpr cl ol ll rl) /\
+              numval f2 (ren_num rho resr) = teval f r).
+    { intros rho f Hrs f1 f2. pose proof Hrs as (Hinj & Hdis & Hk).
+      assert (Hrl : rho_spine rho out k (tvars (NExpr cl ol ll rl))).
+      { split; [exact Hinj|split; [|exact Hk]]. intros s j Hs. apply Hdis. cbn [tvars]. apply in_or_app. now left. }
+      assert (Hro : rho_ok rho (tvars r)).
+      { apply (rho_spine_ok rho out k _ _ Hrs); [|exact Hnor]. intros s Hs. cbn [tvars]. apply in_or_app. now right. }
+      destruct (Sl rho f Hrl) as [Fl Vl]. fold f1 in Fl, Vl.
+      destruct (Sr rho f1 Hro) as [Fr Vr]. fold f2 in Fr, Vr.
+      split; [|split].
+      - intros s Hs Hs'. rewrite Fr.
+        + apply Fl; [exact Hs|]. intros j Aj Bj. apply Hs'; [exact Aj|lia].
+        + intros j Aj Bj. apply Hs'; [now apply A1|exact Bj].
+      - rewrite Fr; [exact Vl|].
+        intros j Aj Bj E. rewrite <- Hk in E. apply Hinj in E; [subst j; contradiction|exact Kge|exact (avail_ge1 _ _ I1 Aj)].
+      - rewrite Vr. apply teval_ext. intros s Hs.
+        assert (s <> out) by (intros ->; contradiction).
+        apply Fl; [assumption|]. intros j Aj _. apply Hdis; [cbn [tvars]; apply in_or_app; now right|assumption|exact (avail_ge1 _ _ HI Aj)]. }
+    destruct (res_cases r resr st1 st2 Hcr' Rr) as [(s' & -> & -> & ->)|[(z & -> & -> & ->)|(_ & j & -> & Aj & Jmax & Jfree & Outj)]].
+    + cbn [free_if_temp] in Ht.
+      pose proof (rev_app_self_nil _ _ Or) as ->.
+      exists k, (push (NTemp k, o, NVar s') st3), (newl ++ [(NTemp k, o, NVar s')]).
+      post_split.
+      * exact Ht.
+      * cbn [push t_ops]. rewrite O3, Ol, rev_app_distr. reflexivity.
+      * exact I3.
+      * cbn [push t_max]. rewrite M3. exact M1.
+      * intros x Hx. cbn [push t_free] in Hx. rewrite F3 in Hx. now apply F1.
+      * repeat apply conj; auto.
+        -- cbn [push t_max]. rewrite M3. exact Kmax.
+        -- cbn [push t_free]. rewrite F3. exact Kfree.
+        -- cbn [push t_out]. rewrite Out3. destruct ft; [reflexivity|exact Outk].
+      * intros rho f Hrs. destruct (Hsem rho f Hrs) as (Fr & Vo & Vr). destruct Hrs as (Hinj & Hdis & Hk).
+        cbn [map app interp_ops fold_left] in Fr, Vo, Vr.
+        rewrite map_ren_app.
+        change (map (ren_op rho) [(NTemp k, o, NVar s')]) with [(rho k, o, CVar s')]. rewrite interp_snoc1, Hk.
+        split.
+        -- intros s Hs Hs'. rewrite interp_one_other by (cbn; congruence). apply Fr; [exact Hs|].
+           intros j Aj Bj. apply Hs'; [exact Aj|]. cbn [push t_max]. rewrite M3. exact Bj.
+        -- rewrite interp_one_same'. cbn [numval teval].
+           cbn [ren_num numval] in Vr. rewrite Vo, Vr. reflexivity.
+      * rewrite forallb_app, Shl. cbn. rewrite Hare. reflexivity.
+    + cbn [free_if_temp] in Ht.
+      pose proof (rev_app_self_nil _ _ Or) as ->.
+      exists k, (push (NTemp k, o, NConst z) st3), (newl ++ [(NTemp k, o, NConst z)]).
+      post_split.
+      * exact Ht.
+      * cbn [push t_ops]. rewrite O3, Ol, rev_app_distr. reflexivity.
+      * exact I3.
+      * cbn [push t_max]. rewrite M3. exact M1.
+      * intros x Hx. cbn [push t_free] in Hx. rewrite F3 in Hx. now apply F1.
+      * repeat apply conj; auto.
+        -- cbn [push t_max]. rewrite M3. exact Kmax.
+        -- cbn [push t_free]. rewrite F3. exact Kfree.
+        -- cbn [push t_out]. rewrite Out3. destruct ft; [reflexivity|exact Outk].
+      * intros rho f Hrs. destruct (Hsem rho f Hrs) as (Fr & Vo & Vr). destruct Hrs as (Hinj & Hdis & Hk).
+        cbn [map app interp_ops fold_left] in Fr, Vo, Vr.
+        rewrite map_ren_app.
+        change (map (ren_op rho) [(NTemp k, o, NConst z)]) with [(rho k, o, CConst z)]. rewrite interp_snoc1, Hk.
+        split.
+        -- intros s Hs Hs'. rewrite interp_one_other by (cbn; congruence). apply Fr; [exact Hs|].
+           intros j Aj Bj. apply Hs'; [exact Aj|]. cbn [push t_max]. rewrite M3. exact Bj.
+        -- rewrite interp_one_same'. cbn [numval teval].
+           rewrite Vo. reflexivity.
+      * assert (Hz : in_int32b z = true) by exact Hcr'.
+        rewrite forallb_app, Shl. unfold op_shape. cbn [forallb is_temp is_vt fst snd andb]. now rewrite Hz, Hare.
+    + cbn [free_if_temp] in Ht.
+      assert (Jge : (1 <= j)%nat) by (exact (avail_ge1 _ _ I1 Aj)).
+      assert (Hkj : k <> j) by (intros ->; contradiction).
+      destruct (free_var_spec st3 j I3) as [I5 F5].
+      { rewrite F3. exact Jfree. } { rewrite M3. lia. }
+      exists k, (push (NTemp k, o, NTemp j) (free_var j st3)), (newl ++ newr ++ [(NTemp k, o, NTemp j)]).
+      post_split.
+      * exact Ht.
+      * cbn [push free_var t_ops]. rewrite O3, Or, Ol. rewrite !rev_app_distr. cbn [rev app].
+        rewrite <- !app_assoc. reflexivity.
+      * exact I5.
+      * cbn [push free_var t_max]. rewrite M3. lia.
+      * intros x Hx. cbn [push t_free] in Hx. apply F5 in Hx. destruct Hx as [->|Hx]; [now apply A1|].
+        rewrite F3 in Hx. apply A1. now apply F2.
+      * repeat apply conj; auto.
+        -- cbn [push free_var t_max]. rewrite M3. lia.
+        -- cbn [push t_free]. intros Hx. apply F5 in Hx. destruct Hx as [Hx|Hx]; [contradiction|].
+           rewrite F3 in Hx. apply NAk. now apply F2.
+        -- cbn [push free_var t_out]. rewrite Out3. destruct ft; [reflexivity|]. rewrite Outj. exact Outk.
+      * intros rho f Hrs. destruct (Hsem rho f Hrs) as (Fr & Vo & Vr). destruct Hrs as (Hinj & Hdis & Hk).
+        rewrite app_assoc, map_ren_app.
+        change (map (ren_op rho) [(NTemp k, o, NTemp j)]) with [(rho k, o, CVar (rho j))].
+        rewrite interp_snoc1, map_ren_app, interp_ops_app, Hk.
+        assert (Nj : out <> rho j) by (rewrite <- Hk; intros E; apply Hkj; apply Hinj; auto).
+        split.
+        -- intros s Hs Hs'. rewrite interp_one_other by (cbn; congruence). apply Fr; [exact Hs|].
+           intros j' Aj' Bj'. apply Hs'; [exact Aj'|]. cbn [push free_var t_max]. rewrite M3. exact Bj'.
+        -- rewrite interp_one_same'. cbn [numval teval].
+           cbn [ren_num numval] in Vr. rewrite Vo, Vr. reflexivity.
+      * rewrite !forallb_app, Shl, Shr. cbn. rewrite Hare. reflexivity.
 Qed.
